@@ -10,13 +10,16 @@
 
     Above the page cursor (Cursor/Multi.v, Cursor/AsyncPages.v): rowGroupRows
     over several columns with different page layouts, multiPages (the
-    concatenation of the row groups), reader / Reader / GenericReader, and
-    asyncPages under every interleaving of its two goroutines. *)
+    concatenation of the row groups), columnPages (Cursor/ColumnPages.v: the
+    pages of a column of a file, one page cursor per row group), reader /
+    Reader / GenericReader, and asyncPages under every interleaving of its two
+    goroutines. *)
 From Coq Require Import List Arith Bool Lia.
 From PQ Require Import Conc.Sem Conc.Async.
 From PQ Require Import Cursor.Model Cursor.Spec Cursor.Proofs Cursor.Rows.
 From PQ Require Import Cursor.Multi Cursor.MultiProofs Cursor.AsyncPages Cursor.AsyncPagesProofs.
 From PQ Require Import Cursor.Nested Cursor.NestedProofs.
+From PQ Require Import Cursor.ColumnPages Cursor.ColumnPagesProofs.
 Import ListNotations.
 
 (** ** Page cursor with an offset index *)
@@ -296,6 +299,34 @@ Theorem C08_nested_multi_pages_noindex_refines_position : forall t ch cnt gs ops
   run_nested_noindex t ops = run_spec_noindex (concat (rg_leaves t)) ops.
 Proof. exact nested_noindex_refines. Qed.
 
+(** ** The pages of a column of a file, Column.Pages() (Cursor/ColumnPages.v)
+
+    columnPages keeps one page cursor per row group for the life of the
+    reader; [chunks] is the page layout of the chunk of the column in every row
+    group.  For every history of ReadPage / SeekToRow, backward seeks out of a
+    row group that has been partly read included, the outputs are those of one
+    row position over the concatenation of the row groups: SeekToRow rewinds
+    every row group after the target. *)
+Theorem C08_column_pages_refines_position : forall chunks ops,
+  Forall positive chunks ->
+  run_cpages_indexed chunks ops = run_spec_noindex (concat chunks) ops.
+Proof. exact cpages_indexed_refines. Qed.
+
+Theorem C08_column_pages_noindex_refines_position : forall chunks ops,
+  Forall positive chunks ->
+  run_cpages_noindex chunks ops = run_spec_noindex (concat chunks) ops.
+Proof. exact cpages_noindex_refines. Qed.
+
+(** The seeded defect class: a SeekToRow that leaves the row group that was
+    being read where the reads left it does not have the property. *)
+Theorem C08_column_pages_upto_last_refuted :
+  exists chunks ops, Forall positive chunks /\
+    run_cpages_upto_last chunks ops <> run_spec_noindex (concat chunks) ops.
+Proof.
+  exists [[2; 2]; [3; 3]], [SeekToRow 4; ReadPage; SeekToRow 3; ReadPage; ReadPage].
+  split; [repeat constructor|]. vm_compute. discriminate.
+Qed.
+
 (** ** Reader / GenericReader / the rows of a multiRowGroup
 
     [file_ok rg_rows cols]: [cols] gives, for every column, the page layout of
@@ -374,6 +405,9 @@ Print Assumptions C08_multi_pages_noindex_refines_position.
 Print Assumptions C08_nested_flattening.
 Print Assumptions C08_nested_multi_pages_refines_position.
 Print Assumptions C08_nested_multi_pages_noindex_refines_position.
+Print Assumptions C08_column_pages_refines_position.
+Print Assumptions C08_column_pages_noindex_refines_position.
+Print Assumptions C08_column_pages_upto_last_refuted.
 Print Assumptions C08_rows_multi_row_group.
 Print Assumptions C08_reader_multi_row_group.
 Print Assumptions C08_reader_multi_row_group_noindex.
@@ -414,6 +448,20 @@ Example C08_ex_multi_pages :
   run_mpages_indexed [[4; 4]; [3; 3]; [3]]
     [ReadPage; ReadPage; ReadPage; SeekToRow 15; ReadPage; ReadPage; SeekToRow 9; ReadPage; SeekToRow 40; ReadPage]
   = [Rows 0 4; Rows 4 4; Rows 8 3; SeekOk; Rows 15 2; EOF; SeekOk; Rows 9 2; SeekOk; EOF].
+Proof. vm_compute. reflexivity. Qed.
+
+(* Column.Pages(): a backward seek out of the second row group after one of its
+   pages was read, a seek to the last row of a row group, a seek to the number
+   of rows of the first row group (it stops at the end of that row group) *)
+Example C08_ex_column_pages :
+  run_cpages_indexed [[4; 4]; [3; 3]; [3]]
+    [SeekToRow 8; ReadPage; SeekToRow 7; ReadPage; ReadPage; ReadPage; SeekToRow 8; ReadPage; SeekToRow 40; ReadPage; SeekToRow 0; ReadPage]
+  = [SeekOk; Rows 8 3; SeekOk; Rows 7 1; Rows 8 3; Rows 11 3; SeekOk; Rows 8 3; SeekOk; EOF; SeekOk; Rows 0 4].
+Proof. vm_compute. reflexivity. Qed.
+
+Example C08_ex_column_pages_upto_last :
+  run_cpages_upto_last [[4; 4]; [3; 3]; [3]] [SeekToRow 8; ReadPage; SeekToRow 7; ReadPage; ReadPage]
+  = [SeekOk; Rows 8 3; SeekOk; Rows 7 1; Rows 11 3].
 Proof. vm_compute. reflexivity. Qed.
 
 (* four row groups of 3, 4, 2 and 5 rows combined three levels deep: the
